@@ -1,7 +1,8 @@
 /-
 Lemmas for `RedunModel.Model.Handles`: `rollback_handle`'s search (termination within the fuel, result =
-descendants in the joined relation), the effect of `advance_handle` on validity, and the refinement of the
-reference lineage model by the repaired backend.  Property theorems are in `RedunModel.Props.C25`.
+descendants in the joined relation), the effect of `advance_handle` on validity, the refinement of the
+reference lineage model by the repaired backend, and the agreement of the unrepaired rollback with the repaired
+one on ancestor-closed states.  Property theorems are in `RedunModel.Props.C25`.
 -/
 import RedunModel.Model.Handles
 namespace RedunModel.Handles
@@ -459,5 +460,61 @@ theorem run_refines (nm : H → String) (st : St H) (sp : Spec H) (ops : List (O
 
 theorem ri_init (nm : H → String) : RI nm ({} : St H) Spec.init := by
   constructor <;> simp [St.isValid, Spec.init]
+
+/-- valid ⇒ every recorded parent valid (so, inductively, every ancestor) -/
+def Closed (st : St H) : Prop := ∀ a b, (a, b) ∈ st.edges → st.isValid b = true → st.isValid a = true
+
+theorem isValid_row {st : St H} {x : H} (h : st.isValid x = true) : ∃ r ∈ st.rows, r.hash = x ∧ r.valid = true := by
+  unfold St.isValid at h
+  cases hf : st.rows.find? (fun r => decide (r.hash = x)) with
+  | none => simp [hf] at h
+  | some r =>
+    have := List.find?_some hf
+    exact ⟨r, List.mem_of_find?_eq_some hf, by simpa using this, by simpa [hf] using h⟩
+
+/-- On an ancestor-closed state the search of the unrepaired `rollback_handle` (valid parents only) finds every
+*valid* descendant the full search finds. -/
+theorem desc_joined_false_of_closed (nm : H → String) (st : St H) (hn : ∀ r ∈ st.rows, r.name = nm r.hash)
+    (hc : Closed st) (h : HRef H) (x : H) (hd : Desc (st.joined true h.name) h.hash x) (hx : st.isValid x = true) :
+    Desc (st.joined false h.name) h.hash x := by
+  have lift : ∀ a b, (a, b) ∈ st.joined true h.name → st.isValid a = true → (a, b) ∈ st.joined false h.name := by
+    intro a b hab ha
+    obtain ⟨he, r, hr, hrh, hrn, _⟩ := mem_joined.1 hab
+    obtain ⟨r1, hr1, hr1h, hr1v⟩ := isValid_row ha
+    refine mem_joined.2 ⟨he, r1, hr1, hr1h, ?_, Or.inr hr1v⟩
+    simp only at hrh hr1h
+    rw [hn r1 hr1, hr1h, ← hrh, ← hn r hr, hrn]
+  induction hd with
+  | edge he => exact .edge (lift _ _ he (hc _ _ (mem_joined.1 he).1 hx))
+  | step _ he ih =>
+    have hb := hc _ _ (mem_joined.1 he).1 hx
+    exact .step (ih hb) (lift _ _ he hb)
+
+/-- **Partial result for the backend as it was**: on every ancestor-closed state whose rows carry the fullname of
+their hash, its `rollback_handle` and the repaired one (= the reference, `matches_spec`) leave the same valid
+set and the same edges. -/
+theorem rollback_current_eq_fixed_of_closed (nm : H → String) (st : St H) (hn : ∀ r ∈ st.rows, r.name = nm r.hash)
+    (hc : Closed st) (h : HRef H) :
+    ∃ s1 s2, st.rollback false h = .ok s1 ∧ st.rollback true h = .ok s2 ∧ s1.edges = s2.edges ∧
+      ∀ x, s1.isValid x = s2.isValid x := by
+  obtain ⟨r1, h1, hr1⟩ := rollback_spec false st h
+  obtain ⟨r2, h2, hr2⟩ := rollback_spec true st h
+  refine ⟨_, _, h1, h2, rfl, ?_⟩
+  intro x
+  simp only [isValid_eq, validIn_map_inv]
+  cases hv : validIn st.rows x with
+  | false => simp
+  | true =>
+    have hiff : x ∈ r1 ↔ x ∈ r2 := by
+      rw [hr1, hr2]
+      constructor
+      · exact Desc.mono (fun e he => mem_joined.2 ⟨(mem_joined.1 he).1, by
+          obtain ⟨_, r, hr, a, b, _⟩ := mem_joined.1 he
+          exact ⟨r, hr, a, b, Or.inl rfl⟩⟩)
+      · intro hd; exact desc_joined_false_of_closed nm st hn hc h x hd hv
+    by_cases hm : x ∈ r1
+    · simp [hm, hiff.1 hm]
+    · have hm2 : x ∉ r2 := fun h' => hm (hiff.2 h')
+      simp [hm, hm2]
 
 end RedunModel.Handles
